@@ -116,6 +116,7 @@ func init() {
 			return nil
 		},
 		z + "Symbolic":    func(e *Exec, fr *frame, a []Value) Value { return e.st.True },
+		z + "MapRotate":   func(e *Exec, fr *frame, a []Value) Value { e.mapRotate = int(a[0].(*Term).val); return nil },
 		z + "MapOrderAll": func(e *Exec, fr *frame, a []Value) Value { e.mapAllOrders = a[0].(*Term).val != 0; return nil },
 		z + "Go": func(e *Exec, fr *frame, a []Value) Value {
 			e.spawn(fr.caller, a[0], nil)
@@ -126,6 +127,21 @@ func init() {
 		z + "Await": func(e *Exec, fr *frame, a []Value) Value {
 			cond := a[0]
 			e.await(fr, func() bool {
+				r := e.call(fr, 0, cond, nil).(*Term)
+				if r.IsConst() {
+					return r.val != 0
+				}
+				return e.branch(r)
+			})
+			return nil
+		},
+		z + "AwaitTimer": func(e *Exec, fr *frame, a []Value) Value {
+			d := a[0].(*Term)
+			cond := a[1]
+			if !d.IsConst() {
+				e.end("unsupported", "AwaitTimer with a symbolic deadline")
+			}
+			e.awaitTimer(fr, int64(d.val), func() bool {
 				r := e.call(fr, 0, cond, nil).(*Term)
 				if r.IsConst() {
 					return r.val != 0
